@@ -2,6 +2,7 @@
 import FerretVerif.Props.C01
 import FerretVerif.Props.C02
 import FerretVerif.Props.C05
+import FerretVerif.Props.C06
 import FerretVerif.Props.C10
 import FerretVerif.Props.C11
 import FerretVerif.Props.C15
